@@ -330,6 +330,9 @@ fn build(cx: &mut Cx, s: &Scenario) -> Option<Vec<Built>> {
                     ws.sort();
                     cx.rep.case(&format!("W {gname}"), format!("W {}", ws.iter().map(|w| cps(w)).collect::<Vec<_>>().join(", ")).trim());
                 }
+                // the dictionary's words, for the oracle, are what words_iter() lists
+                let _ = words;
+                let words: Vec<Vec<char>> = dict.words_iter().map(|w| w.to_vec()).collect();
                 let word_set = words.iter().cloned().collect();
                 out.push(Built { def: def.clone(), gname, dict, words, word_set, is_fst: matches!(def.ty.as_str(), "F" | "FM" | "CF"), is_merged: def.ty == "X", is_curated: def.ty.starts_with('C'), id_collision: def.ty == "F" && !ids_distinct(&def.entries) });
             }
@@ -479,25 +482,23 @@ fn run_scenario(cx: &mut Cx, s: &Scenario) {
                 if b.is_curated && query.d > 3 {
                     continue;
                 }
+                let mut str_differs = false;
                 let res: Result<Vec<(Vec<char>, u8, WordMetadata)>, String> = guarded(|| {
                     let r: Vec<FuzzyMatchResult> = b.dict.fuzzy_match(&q, query.d, query.k);
                     let r2: Vec<FuzzyMatchResult> = b.dict.fuzzy_match_str(&query.q, query.d, query.k);
                     let conv = |r: &Vec<FuzzyMatchResult>| r.iter().map(|x| (x.word.to_vec(), x.edit_distance, x.metadata.clone())).collect::<Vec<_>>();
                     let (a, c) = (conv(&r), conv(&r2));
-                    if a != c {
-                        panic!("HV_STR_DIFF");
-                    }
+                    str_differs = a != c;
                     a
                 });
+                if str_differs {
+                    cx.rep.fail("str_variant_differs", format!("{}: fuzzy_match_str differs from fuzzy_match for {:?}", b.def.ty, query.q), fail_input.clone());
+                }
                 let head = format!("Z {} {} {} | {} | {}", b.gname, query.d, query.k, cps(&q), cps(&ql_string));
                 if b.is_fst {
                     cx.fst_cases += 1;
                 }
                 match res {
-                    Err(m) if m.contains("HV_STR_DIFF") => {
-                        cx.rep.case(&format!("{head} | P strdiff"), "STRDIFF");
-                        cx.rep.fail("str_variant_differs", format!("{}: fuzzy_match_str differs from fuzzy_match for {:?}", b.def.ty, query.q), fail_input.clone());
-                    }
                     Err(m) => {
                         let pc = panic_class(&m);
                         cx.rep.case(&format!("{head} | P {pc}"), &format!("P {pc}"));
@@ -521,6 +522,10 @@ fn run_scenario(cx: &mut Cx, s: &Scenario) {
                         cx.rep.count(&format!("fuzzy:{}:results:{}", if b.is_fst { "fst" } else if b.is_merged { "merged" } else { "mutable" }, bucket(r.len())));
                         if !r.is_empty() {
                             nontriv = true;
+                            if cx.rep.samples.len() < 8 && r.len() >= 2 && (cx.rep.samples.len() as u64) * 400 < cx.rep.evaluations {
+                                cx.rep.sample(json!({"dictionary": format!("{} ({}, {} words)", b.def.name, b.def.ty, b.words.len()), "query": query.q, "max_distance": query.d, "max_results": query.k,
+                                    "results": r.iter().take(6).map(|(w, d, _)| json!([w.iter().collect::<String>(), d])).collect::<Vec<_>>(), "n_results": r.len(), "origin": s.origin}));
+                            }
                         }
                         if !s.malformed {
                             fuzzy_oracle(cx, b, query, &qn, &ql_chars, &ql_string, &r, &fail_input);
@@ -575,7 +580,7 @@ fn fuzzy_oracle(cx: &mut Cx, b: &Built, query: &Query, qn: &[char], ql_chars: &[
     for (w, dist, md) in r {
         let ws: String = w.iter().collect();
         // a real dictionary word, with that word's metadata
-        if !b.word_set.contains(w) || !b.dict.words_iter().any(|x| x == w.as_slice()) && !b.is_curated {
+        if !b.word_set.contains(w) {
             let class = if b.id_collision { "fst_new_id_collision" } else { "fuzzy_not_a_word" };
             cx.rep.fail(class, format!("{who}: result {ws:?} for {:?} is not a word of the dictionary (words_iter)", query.q), fail_input.clone());
         } else if !b.is_merged && b.dict.get_word_metadata(w) != Some(md) {
@@ -634,7 +639,6 @@ fn bucket(n: usize) -> &'static str {
 // ---------------------------------------------------------------------------------------------
 // generators
 // ---------------------------------------------------------------------------------------------
-const CAPS: &[usize] = &[0, 1, 2, 3, 5, 10, 100, 1000];
 
 fn recase(r: &mut Rng, w: &str) -> String {
     match r.below(4) {
@@ -691,6 +695,13 @@ const ODD_QUERIES: &[&str] = &[
     "", " ", "é", "café", "CAFÉ", "naïve", "Straße", "STRASSE", "İstanbul", "İ", "ΟΔΟΣ", "Σ", "ς", "ǅ", "ﬁn", "日本語", "🙂", "a🙂b", "e\u{301}", "I'm", "I\u{2019}m", "i\u{FF07}m",
     "it\u{2018}s", "NASA", "Ph.D", "x", "X", "A", "a", "I", "ok", "OK", "Ok", "hello", "Hello", "HELLO", "hELLO", "hvllo", "Semantical", "punctation", "youre", "thats",
 ];
+
+fn pick_d(r: &mut Rng) -> u8 {
+    *r.pick(&[0u8, 1, 1, 2, 2, 2, 3, 3])
+}
+fn pick_k(r: &mut Rng) -> usize {
+    *r.pick(&[0usize, 1, 1, 2, 3, 5, 10, 10, 100, 100, 100, 1000, 1000])
+}
 
 fn variant_query(r: &mut Rng, base: &str, alphabet: &[char]) -> String {
     match r.below(10) {
@@ -794,6 +805,18 @@ pub fn run(a: &Args, corpus: &[Value]) {
     // the Unicode data of ASCII is declared up front
     let ascii: Vec<char> = (0u8..128).map(|b| b as char).collect();
     cx.declare(&ascii);
+    // the oracle's lower-casing is char-wise; CharStringExt::to_lower returns all-is_lowercase strings
+    // unchanged: the two coincide iff is_lowercase(c) implies to_lowercase(c) == [c] — every scalar value
+    let mut law_checked = 0u64;
+    for cp in 0u32..=0x10FFFF {
+        if let Some(c) = char::from_u32(cp) {
+            law_checked += 1;
+            if c.is_lowercase() && c.to_lowercase().collect::<Vec<_>>() != vec![c] {
+                cx.rep.fail("unicode_law", format!("char U+{cp:04X} is_lowercase but to_lowercase() differs"), json!({"kind": "char", "c": cp}));
+            }
+        }
+    }
+    cx.rep.monitor("unicode_law_is_lowercase_implies_to_lowercase_identity(all scalar values)", law_checked);
     // synthetic metadata values get the tags 0..15
     for i in 0..16 {
         let t = cx.tag(&mk_meta(i));
@@ -832,13 +855,13 @@ pub fn run(a: &Args, corpus: &[Value]) {
             let q: String = q.chars().take(40).collect();
             // the extracted model scans the whole curated list: the FST side is asked on every query,
             // the (slower, buffer-faithful) mutable side on the merged-with-user dictionary only
-            queries.push(Query { q, d: r.below(4) as u8, k: *r.pick(CAPS), on: vec!["cf".into(), "user".into(), "xcu".into()], fuzzy: true });
+            queries.push(Query { q, d: pick_d(&mut r), k: pick_k(&mut r), on: vec!["cf".into(), "user".into(), "xcu".into()], fuzzy: true });
         }
         if a.thorough() {
             for _ in 0..60 {
                 let base = r.pick(&words).clone();
                 let q: String = variant_query(&mut r, &base, EDIT_ALPHABET).chars().take(24).collect();
-                queries.push(Query { q, d: r.below(4) as u8, k: *r.pick(CAPS), on: vec!["cm".into()], fuzzy: true });
+                queries.push(Query { q, d: pick_d(&mut r), k: pick_k(&mut r), on: vec!["cm".into()], fuzzy: true });
             }
         }
         let s = Scenario { dicts, agree: vec![vec!["cf".into(), "cm".into(), "xc".into()]], queries, origin: "curated".into(), malformed: false };
@@ -868,9 +891,9 @@ pub fn run(a: &Args, corpus: &[Value]) {
         let (dicts, agree) = family(entries.clone(), r.below(entries.len() + 1));
         let mut queries = vec![];
         for _ in 0..a.scale(25, 40) {
-            let base = if entries.is_empty() || r.chance(1, 10) { r.pick(&words).clone() } else { r.pick(&entries).0.clone() };
+            let base = if entries.is_empty() || r.chance(1, 20) { r.pick(&words).clone() } else { r.pick(&entries).0.clone() };
             let q = variant_query(&mut r, &base, EDIT_ALPHABET);
-            queries.push(Query { q, d: r.below(4) as u8, k: *r.pick(CAPS), on: vec![], fuzzy: true });
+            queries.push(Query { q, d: pick_d(&mut r), k: pick_k(&mut r), on: vec![], fuzzy: true });
         }
         let s = Scenario { dicts, agree, queries, origin: if distinct { "sample".into() } else { "sample-id-collisions".into() }, malformed: false };
         run_scenario(&mut cx, &s);
